@@ -183,9 +183,31 @@ theorem unify_general (fo : FloatOps) (θ : Nat → FO) : ∀ f,
 
 open Suiron
 
+theorem canonF_toNat (x : UInt64) : (canonF x).toNat = if x.toNat = 9223372036854775808 then 0 else x.toNat := by
+  unfold canonF
+  by_cases h : x = negZero
+  · subst h; simp [negZero]
+  · have : ¬ x.toNat = 9223372036854775808 := by
+      intro he; apply h; apply UInt64.toNat_inj.mp; simpa [negZero] using he
+    simp [h, this]
+
+/-- IEEE equality of two floats is equality of their canonical bit patterns (both zeros are one number) -/
+theorem fEq_iff_canon {x y : UInt64} (hx : fIsNaN x = false) (hy : fIsNaN y = false) :
+    fEq x y = true ↔ canonF x = canonF y := by
+  simp only [fEq, hx, hy, Bool.not_false, Bool.true_and, beq_iff_eq]
+  rw [← UInt64.toNat_inj, canonF_toNat, canonF_toNat]
+  unfold fKey fSign
+  have hxl := x.toNat_lt
+  have hyl := y.toNat_lt
+  have e63 : (2:Nat)^63 = 9223372036854775808 := by decide
+  simp only [decide_eq_true_eq, e63, ge_iff_le, Int.ofNat_eq_natCast]
+  generalize x.toNat = a at *
+  generalize y.toNat = b at *
+  split <;> split <;> split <;> split <;> omega
+
 mutual
-/-- a well-formed, function-free term in operand position: no NaN, no bare `Nil`, lists end in the
-    empty node or in a tail-variable cell -/
+/-- a well-formed, function-free term in operand position: no NaN, no -0.0, no bare `Nil`, every complex
+    term has an atom as functor, lists end in the empty node or in a tail-variable cell -/
 def goodT : Term → Bool
   | .nil => false
   | .anon => true
@@ -193,7 +215,8 @@ def goodT : Term → Bool
   | .flt b => !fIsNaN b
   | .int _ => true
   | .var _ _ => true
-  | .cplx args => goodL args
+  | .cplx (.cons (.atom _) rest) => goodL rest
+  | .cplx _ => false
   | .cons t n _ tv => !tv && ((t.isNil && n.isNil) || (goodT t && goodN n))
   | .func _ _ => false
 /-- a list node: an ordinary cell, the empty node, or the tail-variable cell -/
@@ -213,6 +236,11 @@ theorem SubstGood_bind {σ : Subst} {id : Nat} {b : Term} (h : SubstGood σ) (hb
   · subst he; rw [Subst.get_bind_self] at hi; cases hi; exact hb
   · rw [Subst.get_bind_other _ _ _ _ he] at hi; exact h i t hi
 
+theorem goodT_cplx {as : TermList} (h : goodT (.cplx as) = true) : goodL as = true := by
+  cases as with
+  | nil => simp [goodT] at h
+  | cons a rest => cases a <;> simp_all [goodT, goodL]
+
 theorem isNil_FF {t : Term} (h : t.isNil = true) : Term.FF t = true := by cases t <;> simp_all [Term.isNil, Term.FF]
 
 mutual
@@ -223,7 +251,7 @@ theorem goodT_FF : (t : Term) → goodT t = true → Term.FF t = true
   | .flt _, _ => rfl
   | .int _, _ => rfl
   | .var _ _, _ => rfl
-  | .cplx args, h => by simp only [goodT] at h; simp only [Term.FF]; exact goodL_FF args h
+  | .cplx args, h => by simp only [Term.FF]; exact goodL_FF args (goodT_cplx h)
   | .cons t n c tv, h => by
     simp only [goodT, Bool.and_eq_true, Bool.or_eq_true, Bool.not_eq_true'] at h
     simp only [Term.FF, Bool.and_eq_true]
@@ -319,7 +347,7 @@ theorem unify_good (fo : FloatOps) : ∀ f,
       · split at h
         · split at h
           · cases h
-          · exact ihA _ _ _ _ _ h (by simpa [goodT] using ha) (by simpa [goodT] using hb) hσ
+          · exact ihA _ _ _ _ _ h (goodT_cplx ha) (goodT_cplx hb) hσ
               (by intro i t hh; simp [Subst.get_nil] at hh)
         · exact ihU _ _ _ _ h hb ha hσ
         · exact ihU _ _ _ _ h hb ha hσ
@@ -497,9 +525,8 @@ theorem unify_complete (fo : FloatOps) (θ : Nat → FO) : ∀ f,
           · rename_i hne
             have hxy := hu
             simp [Unifies, abs, FO.subst] at hxy
-            subst hxy
-            simp [goodT] at ha
-            exact hne (fEq_self ha)
+            simp [goodT] at ha hb
+            exact hne ((fEq_iff_canon ha hb).mpr hxy)
         · exact ihU _ _ _ h hb ha hσ hs hu.symm
         · simp [goodT] at hb
         · cases b <;> simp_all [Unifies, abs, FO.subst, goodT, Term.isAnon]
@@ -542,7 +569,7 @@ theorem unify_complete (fo : FloatOps) (θ : Nat → FO) : ∀ f,
             exact absL_length _ _ θ hl
           · have hl := hu
             simp [Unifies, abs, FO.subst] at hl
-            exact ihA _ _ _ _ h (by simpa [goodT] using ha) (by simpa [goodT] using hb) hσ
+            exact ihA _ _ _ _ h (goodT_cplx ha) (goodT_cplx hb) hσ
               (by intro i t hh; simp [Subst.get_nil] at hh) hs (Solves_nil θ) hl
         · exact ihU _ _ _ h hb ha hσ hs hu.symm
         · simp [goodT] at hb
@@ -658,6 +685,349 @@ theorem unify_complete (fo : FloatOps) (θ : Nat → FO) : ∀ f,
               · have hg := (unify_good fo f).1 _ _ _ _ hu1 hx'.1 hy'.1 hc
                 have hs1 := ((unify_general fo θ f).1 _ _ _ _ hu1 (goodT_FF _ hx'.1) (goodT_FF _ hy'.1) (SubstGood_FF hc) hs hu.1).1
                 exact ihL _ _ _ h' hx'.2 hy'.2 hg hs1 hu.2
+      · cases h
+
+
+open Suiron
+
+mutual
+/-- anonymous-variable free -/
+def Term.AF : Term → Bool
+  | .anon => false
+  | .cplx args => TermList.AF args
+  | .cons t n _ _ => Term.AF t && Term.AF n
+  | .func _ args => TermList.AF args
+  | _ => true
+def TermList.AF : TermList → Bool
+  | .nil => true
+  | .cons a as => Term.AF a && TermList.AF as
+end
+
+def SubstAF (σ : Subst) : Prop := ∀ i t, σ.get i = some t → Term.AF t = true
+
+def Extends (σ σ' : Subst) : Prop := ∀ i t, σ.get i = some t → σ'.get i = some t
+
+theorem Extends.refl (σ : Subst) : Extends σ σ := fun _ _ h => h
+theorem Extends.trans {a b c : Subst} (h1 : Extends a b) (h2 : Extends b c) : Extends a c := fun i t h => h2 i t (h1 i t h)
+theorem Solves.mono {θ : Nat → FO} {σ σ' : Subst} (h : Solves θ σ') (he : Extends σ σ') : Solves θ σ :=
+  fun i t hi => h i t (he i t hi)
+
+theorem beq_isNil : ∀ (a b : Term), a.beq b = true → a.isNil = b.isNil := by
+  intro a b h
+  cases a <;> cases b <;> simp_all [Term.beq, Term.isNil]
+
+mutual
+theorem beq_abs : (a b : Term) → a.beq b = true → abs a = abs b
+  | .nil, b, h => by cases b <;> simp_all [Term.beq, abs]
+  | .anon, b, h => by cases b <;> simp_all [Term.beq, abs]
+  | .atom s, b, h => by cases b <;> simp_all [Term.beq, abs]
+  | .flt x, b, h => by
+    cases b <;> simp_all [Term.beq, abs]
+    rename_i y
+    have hx : fIsNaN x = false := by simp [fEq] at h; exact h.1.1
+    have hy : fIsNaN y = false := by simp [fEq] at h; exact h.1.2
+    exact (fEq_iff_canon hx hy).mp h
+  | .int i, b, h => by cases b <;> simp_all [Term.beq, abs]
+  | .var i n, b, h => by cases b <;> simp_all [Term.beq, abs]
+  | .cplx as, b, h => by
+    cases b <;> simp_all [Term.beq, abs]
+    exact beqL_abs _ _ h
+  | .cons t n c tv, b, h => by
+    cases b with
+    | cons t' n' c' tv' =>
+      simp only [Term.beq, Bool.and_eq_true, beq_iff_eq] at h
+      obtain ⟨⟨⟨h1, h2⟩, h3⟩, h4⟩ := h
+      simp only [abs, h4, beq_abs t t' h1, beq_abs n n' h2, beq_isNil t t' h1]
+    | _ => simp [Term.beq] at h
+  | .func f as, b, h => by cases b <;> simp_all [Term.beq, abs]
+theorem beqL_abs : (a b : TermList) → TermList.beq a b = true → absL a = absL b
+  | .nil, .nil, _ => rfl
+  | .nil, .cons _ _, h => by simp [TermList.beq] at h
+  | .cons _ _, .nil, h => by simp [TermList.beq] at h
+  | .cons x xs, .cons y ys, h => by
+    simp only [TermList.beq, Bool.and_eq_true] at h
+    simp only [absL, beq_abs x y h.1, beqL_abs xs ys h.2]
+end
+
+/-- a chain of bindings from `b` to the unbound variable `id`: every θ that validates σ maps `b` to `θ id` -/
+theorem aliased_true (θ : Nat → FO) : ∀ (f : Nat) (σ : Subst) (id : Nat) (b : Term),
+    aliased f σ id b = .ok true → Solves θ σ → FO.subst θ (abs b) = θ id := by
+  intro f
+  induction f with
+  | zero => intro σ id b h; simp [aliased] at h
+  | succ f ih =>
+    intro σ id b h hs
+    simp only [aliased] at h
+    split at h
+    · rename_i j nm
+      split at h
+      · rename_i hj; subst hj; simp [abs, FO.subst]
+      · split at h
+        · rename_i e he
+          have := ih σ id e h hs
+          simp only [abs, FO.subst]
+          rw [hs j e he]; exact this
+        · cases h
+    · cases h
+
+
+open Suiron
+
+theorem SubstAF_bind {σ : Subst} {id : Nat} {b : Term} (h : SubstAF σ) (hb : Term.AF b = true) : SubstAF (σ.bind id b) := by
+  intro i t hi
+  by_cases he : i = id
+  · subst he; rw [Subst.get_bind_self] at hi; cases hi; exact hb
+  · rw [Subst.get_bind_other _ _ _ _ he] at hi; exact h i t hi
+
+theorem Extends_bind {σ : Subst} {id : Nat} {b : Term} (h : σ.get id = none) : Extends σ (σ.bind id b) := by
+  intro i t hi
+  by_cases he : i = id
+  · subst he; rw [h] at hi; cases hi
+  · rw [Subst.get_bind_other _ _ _ _ he]; exact hi
+
+theorem anon_AF {t : Term} (h : Term.AF t = true) : t.isAnon = false := by
+  cases t <;> simp_all [Term.AF, Term.isAnon]
+
+theorem unify_atom_atom {fo : FloatOps} {f : Nat} {x y : String} {σ s : Subst}
+    (h : unify fo f (.atom x) (.atom y) σ = .ok s) : s = σ ∧ x = y := by
+  cases f with
+  | zero => simp [unify] at h
+  | succ f =>
+    unfold unify at h
+    simp only [Term.beq, Term.isAnon] at h
+    by_cases he : x = y
+    · simp [he] at h; exact ⟨h.symm, he⟩
+    · simp [he] at h
+
+/-- SOUNDNESS (solution-set form): every θ that validates the result of `unify a b σ` unifies `a` and `b`;
+    and the result extends σ. -/
+theorem unify_sound (fo : FloatOps) : ∀ f,
+    (∀ a b σ σ', unify fo f a b σ = .ok σ' → goodT a = true → goodT b = true → SubstGood σ →
+        Term.AF a = true → Term.AF b = true → SubstAF σ →
+        Extends σ σ' ∧ SubstAF σ' ∧ ∀ θ, Solves θ σ' → Unifies θ a b) ∧
+    (∀ as bs cur σ', unifyArgs fo f as bs cur cur = .ok σ' → goodL as = true → goodL bs = true → SubstGood cur →
+        TermList.AF as = true → TermList.AF bs = true → SubstAF cur →
+        Extends cur σ' ∧ SubstAF σ' ∧ ∀ θ, Solves θ σ' → FOList.subst θ (absL as) = FOList.subst θ (absL bs)) ∧
+    (∀ x y cur σ', unifyList fo f x y cur = .ok σ' → goodN x = true → goodN y = true → SubstGood cur →
+        Term.AF x = true → Term.AF y = true → SubstAF cur →
+        Extends cur σ' ∧ SubstAF σ' ∧ ∀ θ, Solves θ σ' → Unifies θ x y) := by
+  intro f
+  induction f using Nat.strongRecOn with
+  | ind f ih =>
+  cases f with
+  | zero =>
+    refine ⟨?_, ?_, ?_⟩
+    · intro a b σ σ' h; simp [unify] at h
+    · intro as bs cur σ' h; simp [unifyArgs] at h
+    · intro x y cur σ' h; simp [unifyList] at h
+  | succ f =>
+    obtain ⟨ihU, ihA, ihL⟩ := ih f (Nat.lt_succ_self f)
+    have swap : ∀ {a b : Term} {σ σ' : Subst}, unify fo f b a σ = .ok σ' → goodT a = true → goodT b = true → SubstGood σ →
+        Term.AF a = true → Term.AF b = true → SubstAF σ →
+        Extends σ σ' ∧ SubstAF σ' ∧ ∀ θ, Solves θ σ' → Unifies θ a b := by
+      intro a b σ σ' h ha hb hσ fa fb fσ
+      have := ihU _ _ _ _ h hb ha hσ fb fa fσ
+      exact ⟨this.1, this.2.1, fun θ hs => (this.2.2 θ hs).symm⟩
+    refine ⟨?_, ?_, ?_⟩
+    · intro a b σ σ' h ha hb hσ fa fb fσ
+      have same : σ' = σ → a.beq b = true → Extends σ σ' ∧ SubstAF σ' ∧ ∀ θ, Solves θ σ' → Unifies θ a b := by
+        intro e hbeq; subst e
+        exact ⟨Extends.refl _, fσ, fun θ _ => by unfold Unifies; rw [beq_abs a b hbeq]⟩
+      unfold unify at h
+      split at h
+      · rename_i hbeq; cases h; exact same rfl hbeq
+      split at h
+      · rename_i hban; rw [anon_AF fb] at hban; cases hban
+      split at h
+      · simp [Term.AF] at fa
+      · -- atom
+        split at h
+        · split at h
+          · rename_i he; cases h; subst he
+            exact ⟨Extends.refl _, fσ, fun θ _ => by simp [Unifies]⟩
+          · cases h
+        · exact swap h ha hb hσ fa fb fσ
+        · exact swap h ha hb hσ fa fb fσ
+        · cases h
+      · -- flt
+        split at h
+        · split at h
+          · rename_i he
+            cases h
+            refine ⟨Extends.refl _, fσ, fun θ _ => ?_⟩
+            simp [Unifies, abs, FO.subst, (fEq_iff_canon (by simpa [goodT] using ha) (by simpa [goodT] using hb)).mp he]
+          · cases h
+        · exact swap h ha hb hσ fa fb fσ
+        · exact swap h ha hb hσ fa fb fσ
+        · cases h
+      · -- int
+        split at h
+        · split at h
+          · rename_i he; cases h; subst he
+            exact ⟨Extends.refl _, fσ, fun θ _ => by simp [Unifies]⟩
+          · cases h
+        · exact swap h ha hb hσ fa fb fσ
+        · exact swap h ha hb hσ fa fb fσ
+        · cases h
+      · -- var
+        rename_i id name _
+        split at h
+        · cases h
+        split at h
+        · exact swap h ha hb hσ fa fb fσ
+        split at h
+        · rename_i t hget
+          have := ihU _ _ _ _ h (hσ _ _ hget) hb hσ (fσ _ _ hget) fb fσ
+          refine ⟨this.1, this.2.1, fun θ hs => ?_⟩
+          have h1 := this.2.2 θ hs
+          have h2 : θ id = FO.subst θ (abs t) := hs id t (this.1 id t hget)
+          unfold Unifies at h1 ⊢
+          simp only [abs, FO.subst]
+          rw [h2]; exact h1
+        · rename_i hget
+          obtain ⟨al, hal, h⟩ := Res.bind_eq_ok.mp h
+          cases al with
+          | true =>
+            simp at h; cases h
+            refine ⟨Extends.refl _, fσ, fun θ hs => ?_⟩
+            have := aliased_true θ f σ id b hal hs
+            unfold Unifies; simp only [abs, FO.subst]; exact this.symm
+          | false =>
+            simp at h; cases h
+            refine ⟨Extends_bind hget, SubstAF_bind fσ fb, fun θ hs => ?_⟩
+            unfold Unifies; simp only [abs, FO.subst]
+            exact hs id b (Subst.get_bind_self _ _ _)
+      · -- cplx
+        split at h
+        · split at h
+          · cases h
+          · rename_i _ as _ bs _ _ hlen
+            cases as with
+            | nil => simp [goodT] at ha
+            | cons a0 as =>
+              cases bs with
+              | nil => simp [goodT] at hb
+              | cons b0 bs =>
+                cases a0 <;> simp [goodT] at ha
+                cases b0 <;> simp [goodT] at hb
+                simp [Term.AF, TermList.AF] at fa fb
+                cases f with
+                | zero => simp [unifyArgs] at h
+                | succ f' =>
+                  simp only [unifyArgs, Term.isAnon] at h
+                  simp at h
+                  obtain ⟨s, hu, hrest⟩ := Res.bind_eq_ok.mp h
+                  obtain ⟨ihU', ihA', _⟩ := ih f' (by omega)
+                  obtain ⟨hsσ, hxy⟩ := unify_atom_atom hu
+                  subst hsσ
+                  have := ihA' _ _ _ _ hrest ha hb hσ fa fb fσ
+                  refine ⟨this.1, this.2.1, fun θ hs => ?_⟩
+                  have h2 := this.2.2 θ hs
+                  simp [Unifies, abs, absL, FO.subst, FOList.subst, h2, hxy]
+        · exact swap h ha hb hσ fa fb fσ
+        · exact swap h ha hb hσ fa fb fσ
+        · cases h
+      · -- cons
+        split at h
+        · rename_i _ t1 n1 c1 tv1 _ t2 n2 c2 tv2 _ _
+          have h1 : tv1 = false := by simp [goodT] at ha; exact ha.1
+          have h2 : tv2 = false := by simp [goodT] at hb; exact hb.1
+          subst h1; subst h2
+          exact ihL _ _ _ _ h (by simpa [goodN, goodT] using ha) (by simpa [goodN, goodT] using hb) hσ fa fb fσ
+        · exact swap h ha hb hσ fa fb fσ
+        · exact swap h ha hb hσ fa fb fσ
+        · cases h
+      · simp [goodT] at ha
+      · cases h
+    · intro as bs cur σ' h ha hb hc fa fb fc
+      cases as with
+      | nil =>
+        cases bs with
+        | nil => simp [unifyArgs] at h; cases h; exact ⟨Extends.refl _, fc, fun θ _ => rfl⟩
+        | cons b bs => simp [unifyArgs] at h
+      | cons a as =>
+        cases bs with
+        | nil => simp [unifyArgs] at h
+        | cons b bs =>
+          simp [goodL] at ha hb
+          simp [TermList.AF] at fa fb
+          simp only [unifyArgs, anon_AF fa.1, anon_AF fb.1, Bool.false_eq_true, if_false] at h
+          obtain ⟨s, hu, hrest⟩ := Res.bind_eq_ok.mp h
+          have h1 := ihU _ _ _ _ hu ha.1 hb.1 hc fa.1 fb.1 fc
+          have hg := (unify_good fo f).1 _ _ _ _ hu ha.1 hb.1 hc
+          have h2 := ihA _ _ _ _ hrest ha.2 hb.2 hg fa.2 fb.2 h1.2.1
+          refine ⟨h1.1.trans h2.1, h2.2.1, fun θ hs => ?_⟩
+          have e1 := h1.2.2 θ (hs.mono h2.1)
+          have e2 := h2.2.2 θ hs
+          simp only [absL, FOList.subst]
+          rw [e2]; unfold Unifies at e1; rw [e1]
+    · intro x y cur σ' h hx hy hc fx fy fc
+      simp only [unifyList] at h
+      split at h
+      · cases h
+      split at h
+      · rename_i tt tn c1 ttv ot on c2 otv _
+        simp [Term.AF] at fx fy
+        split at h
+        · rename_i hboth
+          simp at hboth
+          obtain ⟨rfl, rfl⟩ := hboth
+          simp [goodN] at hx hy
+          simp only [anon_AF fx.1, anon_AF fy.1, Bool.false_eq_true, if_false] at h
+          have := ihU _ _ _ _ h hx.1 hy.1 hc fx.1 fy.1 fc
+          exact ⟨this.1, this.2.1, fun θ hs => by simpa [Unifies, abs] using this.2.2 θ hs⟩
+        split at h
+        · rename_i hnb ht
+          have : otv = false := by cases otv <;> simp_all
+          subst this; subst ht
+          simp [goodN] at hx
+          have := ihU _ _ _ _ h hx.1 (goodN_goodT hy) hc fx.1 (by simp [Term.AF, fy]) fc
+          exact ⟨this.1, this.2.1, fun θ hs => by simpa [Unifies, abs] using this.2.2 θ hs⟩
+        split at h
+        · rename_i hnb ht ho
+          have : ttv = false := by simpa using ht
+          subst this; subst ho
+          simp [goodN] at hy
+          have := ihU _ _ _ _ h hy.1 (goodN_goodT hx) hc fy.1 (by simp [Term.AF, fx]) fc
+          exact ⟨this.1, this.2.1, fun θ hs => by
+            have := (this.2.2 θ hs).symm
+            simpa [Unifies, abs] using this⟩
+        split at h
+        · rename_i hnb ht ho hnn
+          have htf : ttv = false := by simpa using ht
+          have hof : otv = false := by simpa using ho
+          subst htf; subst hof
+          cases h
+          simp at hnn
+          exact ⟨Extends.refl _, fc, fun θ _ => by simp [Unifies, abs, hnn.1, hnn.2]⟩
+        · rename_i hnb ht ho hnn
+          have htf : ttv = false := by simpa using ht
+          have hof : otv = false := by simpa using ho
+          subst htf; subst hof
+          obtain ⟨s, hu1, hrest⟩ := Res.bind_eq_ok.mp h
+          simp [goodN] at hx hy
+          have hnilL : ∀ (u v : Term) (s0 : Subst), (u.isNil = true ∨ v.isNil = true) → unifyList fo f u v s0 ≠ .ok σ' := by
+            intro u v s0 huv
+            cases f with
+            | zero => simp [unifyList]
+            | succ f' =>
+              simp only [unifyList]
+              have : (u.isNil || v.isNil) = true := by rcases huv with h' | h' <;> simp [h']
+              simp [this]
+          rcases hx with hx | hx
+          · exact absurd hrest (hnilL _ _ _ (Or.inl hx.2))
+          · rcases hy with hy | hy
+            · exact absurd hrest (hnilL _ _ _ (Or.inr hy.2))
+            · have h1 := ihU _ _ _ _ hu1 hx.1 hy.1 hc fx.1 fy.1 fc
+              have hg := (unify_good fo f).1 _ _ _ _ hu1 hx.1 hy.1 hc
+              have h2 := ihL _ _ _ _ hrest hx.2 hy.2 hg fx.2 fy.2 h1.2.1
+              refine ⟨h1.1.trans h2.1, h2.2.1, fun θ hs => ?_⟩
+              have e1 := h1.2.2 θ (hs.mono h2.1)
+              have e2 := h2.2.2 θ hs
+              have n1 : tt.isNil = false := by cases tt <;> simp_all [goodT, Term.isNil]
+              have n2 : ot.isNil = false := by cases ot <;> simp_all [goodT, Term.isNil]
+              unfold Unifies at e1 e2 ⊢
+              simp [abs, n1, n2, FO.subst, e1, e2]
       · cases h
 
 end Suiron.Spec
